@@ -165,6 +165,11 @@ impl<'a> Case<'a> {
         if self.strict {
             return false;
         }
+        // VERIF_UNTOLERATE=<signature>: report one recorded finding as if it were new (used to
+        // produce the minimised replay files under findings/)
+        if std::env::var("VERIF_UNTOLERATE").map(|s| s == signature).unwrap_or(false) {
+            return false;
+        }
         if self.kf.is_known(self.property, signature) {
             if self.counting {
                 *self.stats.known_hits.entry(signature.to_string()).or_default() += 1;
@@ -595,9 +600,15 @@ impl Report {
         }
         for fnd in self.kf.known_for(self.id) {
             let hits = self.stats.known_hits.get(&fnd.signature).copied().unwrap_or(0);
+            let replayed = self
+                .extra
+                .get("known_findings_replayed")
+                .and_then(|m| m.get(&fnd.signature))
+                .and_then(|v| v.as_str())
+                .unwrap_or("no replay input");
             println!(
-                "KNOWN-FINDING: property={} {} [signature={} hits_this_run={}]",
-                self.id, fnd.summary, fnd.signature, hits
+                "KNOWN-FINDING: property={} {} [signature={} hits_this_run={} {}]",
+                self.id, fnd.summary, fnd.signature, hits, replayed
             );
         }
         let mut coverage = serde_json::Map::new();
